@@ -296,7 +296,11 @@ def shrink_candidates(spec, rng=None):
                 if ln['ok']:
                     nl.append({'ok': True, 'cells': ln['cells'][:j] + ln['cells'][j + 1:]})
                 else:
-                    nl.append(ln)
+                    # a line that is malformed for n columns may be well-formed for n-1: keep the ground truth honest
+                    import csv as _csv
+                    fields = list(_csv.reader([ln['raw']])).pop() if ln['raw'] != '' else []
+                    if len(fields) != len(hdr) - 1:
+                        nl.append(ln)
             s = with_wl(header=hdr[:j] + hdr[j + 1:], lines=nl)
             if 'kinds' in s['workload']:
                 s['workload']['kinds'] = wl['kinds'][:j] + wl['kinds'][j + 1:]
